@@ -38,6 +38,7 @@ def run(ctx):
     wrappers.heartbeat_inc(ctx, rep, roles, "C11", "R11.7")
     from .. import identity
     identity.check(ctx, rep, "C11", "R11.8", ["hb-ord", "hb-clone", "id-eq", "id-hash"])
+    identity.check_keys(ctx, rep, "C11", "R11.9", ["fd-sets", "cluster"])
     r11_4(ctx, rep, roles)
 
 
